@@ -421,7 +421,7 @@ _APPEND = {
            "another source) so that the session's skip-if-equal logic is bound too.",
     "C17": " The OPEN a real session writes is decoded by the reference decoder in every session-level check and compared with the "
            "configuration (version, AS, 4-octet AS capability, hold time, identifier, RFC 9234 role).",
-    "C23": " A quiet period (Wait: 2 s without events) is an action of its own: nothing may happen in OpenSent, OpenConfirm or "
+    "C23": " The connection may break without a NOTIFICATION (ConnLost, RFC 4271 event 18). A quiet period (Wait: 2 s without events) is an action of its own: nothing may happen in OpenSent, OpenConfirm or "
            "Established (hold time 0 or >= 30 s).",
     "C25": " Later additions: Unregister of a client that is not registered (all three tables) and DisposePeer while a Cease is "
            "already queued for an FSM in its reconnect pause.",
